@@ -282,6 +282,40 @@ func cmdProp(args []string) int {
 		}
 	}
 	solveAll(vcs, dir, *par, qsecs, fsecs, *verbose)
+	// second chance: an obligation the solvers gave up on (unknown / timeout, no model) is solved
+	// again on its own with the thorough budget and few queries in flight, so that a busy machine
+	// does not turn a claimed proof into an alarm. A `sat` answer is final.
+	{
+		retried := 0
+		for _, c := range vcs {
+			for _, o := range c.obls {
+				if o.Canary || o.Status == "unsat" || o.Status == "sat" || o.Status == "skipped" || o.Status == "" {
+					continue
+				}
+				o.Status = ""
+				retried++
+			}
+		}
+		if retried > 0 && retried <= 12 && *tier != "thorough" {
+			rdir := filepath.Join(dir, "retry")
+			os.MkdirAll(rdir, 0o755)
+			rp := 4
+			if retried < rp {
+				rp = retried
+			}
+			solveAll(vcs, rdir, rp, 10, 120, *verbose)
+			fmt.Printf("retried %d undecided obligation(s) with the long budget\n", retried)
+		} else if retried > 0 {
+			// thorough tier (already the long budget) or too many to be load: leave them undecided
+			for _, c := range vcs {
+				for _, o := range c.obls {
+					if o.Status == "" {
+						o.Status, o.Solver = "unknown", "not-retried"
+					}
+				}
+			}
+		}
+	}
 
 	// collect
 	cur := map[string]*Obligation{}
